@@ -89,8 +89,7 @@ def teardown_targets(p):
     return out
 
 
-def rule_r1(ctx):
-    rid = "C13.R1"
+def rule_r1(ctx, rid="C13.R1"):
     ctx.r.rule(rid, "no worker / application-callback path reaches a teardown primitive (close, handle_close, add/del_channel)")
     p = ctx.p
     w = worker_role(ctx)
